@@ -1595,11 +1595,9 @@ class Counter(object):
 
     def addtocounter(self, other):
         self.value += int(other)
-        self.resetcounters()
 
     def setcounter(self, other):
         self.value = int(other)
-        self.resetcounters()
 
     def stepcounter(self):
         self.value += 1
